@@ -15,6 +15,7 @@ inductive Err where
   | mismatch (requested actual : ShapeType)
   | recSize                              -- InvalidShapeRecordSize
   | noIndex                              -- MissingIndexFile
+  | dbase                                -- DbaseError (a row rejected by the dbase crate)
   deriving DecidableEq, Repr, Inhabited
 
 inductive Res (α : Type) where
